@@ -227,7 +227,7 @@ func c17Grammar() []*c17Req {
 var c17States = []string{"empty", "small", "mappings"}
 
 func c17Build(s *apih.Server, state string) {
-	s.Truncate()
+	s.TruncateAll()
 	c := s.Client()
 	if state == "empty" {
 		return
